@@ -305,7 +305,13 @@ def check(ctx):
     r4_dtypes(ctx)
     r5_siblings(ctx)
     from . import c06, c09, c10
-    for mod, fn, src in ((c06, "r4_filter", "R4"), (c10, "r2_uncertainty", "R2"), (c09, "r_block_coordinates", "R4")):
+    from . import c02
+    ctx.alias = {"R1": "R2", "R3": "R2"}      # the components handed to the solver are flattened, in the order of the Jacobian's blocks (C02.R1/R3)
+    try:
+        c02.r1_weights(ctx)
+    finally:
+        ctx.alias = {}
+    for mod, fn, src in ((c06, "r4_filter", "R4"), (c10, "r2_uncertainty", "R2"), (c10, "r3_unweighted", "R3"), (c09, "r_block_coordinates", "R4")):
         ctx.alias = {src: "R6"}
         try:
             getattr(mod, fn)(ctx)
